@@ -83,7 +83,12 @@ impl<'a> GeneratorState<'a> {
                             Operation::Or(_) => return Ok(ExprType::Immediate(l | r)),
                             Operation::Xor(_) => return Ok(ExprType::Immediate(l ^ r)),
                             Operation::Mul(_) => return Ok(ExprType::Immediate(l * r)),
-                            Operation::Div(_) => return Ok(ExprType::Immediate(l / r)),
+                            Operation::Div(_) => {
+                                if *r == 0 {
+                                    return Err(self.compiler_state.syntax_error("Division by zero", pos));
+                                }
+                                return Ok(ExprType::Immediate(l / r));
+                            }
                             _ => { return Err(self.compiler_state.compiler_error("Arithmetics is partially implemented", pos)); },
                         } 
                     },
